@@ -59,7 +59,8 @@ Inductive spawn_kind :=
 | SPy                     (* create_pytask *)
 | SPrio (p : Q)           (* PriorityTask(priority=p) *)
 | SDescend                (* create_task_descend *)
-| SStart.                 (* create_task_start *)
+| SStart                  (* create_task_start *)
+| SEager.                 (* asynkit.eager(coro): replies with the future id of the returned awaitable *)
 
 Inductive libop :=
 | OLog (n : Z)
@@ -87,7 +88,9 @@ Inductive libop :=
 | OSetPrio (p : Q)
 | OSelf
 | OQuery                        (* log what runnable_tasks()/blocked_tasks()/all_tasks() report *)
-| OCallSoonQuery.               (* loop.call_soon(<the same query as a plain callback>) *)
+| OCallSoonQuery                (* loop.call_soon(<the same query as a plain callback>) *)
+| OCallSoonCancel (t : nat)     (* loop.call_soon(task.cancel) *)
+| OCancelAw (f : nat).          (* awaitable.cancel(): Task.cancel for a task's future, Future.cancel otherwise *)
 
 Inductive coro :=
 | Ret (v : Z)
@@ -107,8 +110,11 @@ Fixpoint bind (c : coro) (f : reply -> coro) : coro :=
 (* --------------------------------------------------------------- tables *)
 Inductive fstate := FPending | FResult (v : Z) | FExc (e : exn) | FCancelled.
 Inductive cb := CbWakeup (t : nat) | CbLog (n : Z).
-Record fut := mkFut { fstate_ : fstate; fcbs : list cb; fblock : bool; fowner : option nat }.
-#[export] Instance eta_fut : Settable _ := settable! mkFut <fstate_; fcbs; fblock; fowner>.
+(* fcexc: Future._cancelled_exc - the CancelledError(-subclass) instance that ended a task;
+   the first result() of the cancelled future re-raises it and clears it *)
+Record fut := mkFut { fstate_ : fstate; fcbs : list cb; fblock : bool; fowner : option nat;
+                      fcexc : option exn }.
+#[export] Instance eta_fut : Settable _ := settable! mkFut <fstate_; fcbs; fblock; fowner; fcexc>.
 
 Inductive callback :=
 | HStep (t : nat) (e : option exn)
@@ -117,8 +123,12 @@ Inductive callback :=
 | HLog (n : Z)
 | HSetResult (f : nat) (v : Z)
 | HTrigger (b : nat)
-| HQuery.
+| HQuery
+| HTaskCancel (t : nat).
 Record handle := mkH { hcb : callback; hcancelled : bool }.
+
+Inductive yielded := YNone | YFut (f : nat).
+Notation yielded_ := yielded.
 
 (* library frames: where a library coroutine is suspended *)
 Inductive frame :=
@@ -138,6 +148,9 @@ Inductive frame :=
 Inductive tcont :=
 | TNew (c : coro)
 | TSusp (frs : list frame) (k : reply -> coro)
+| TEager (y : yielded_) (frs : list frame) (k : reply -> coro)
+                         (* continuation task of eager(): the coroutine was started by CoroStart and
+                            is suspended having yielded y; the task has not taken its first step *)
 | TRun
 | TFin.
 
@@ -182,7 +195,7 @@ Definition timer_lt (a b : Q * nat) : bool := qltb (fst a) (fst b).   (* TimerHa
 Definition tdflt : Q * nat := (0%Q, 0).
 
 (* ---------------------------------------------------------- table access *)
-Definition dfut : fut := mkFut FPending [] false None.
+Definition dfut : fut := mkFut FPending [] false None None.
 Definition dtask : task := mkTask KC None 0 TFin None false [] None.
 Definition dlock : lock := mkLock LPrio false None pq_empty [] [].
 Definition dcond : cond := mkCond CPrio 0 pq_empty [].
@@ -357,7 +370,7 @@ Definition call_pos (s : st) (p : nat) (c : callback) : st :=
 
 (* ------------------------------------------------------------- futures *)
 Definition new_future (s : st) (owner : option nat) : st * nat :=
-  (s <| futs := futs s ++ [mkFut FPending [] false owner] |>, length (futs s)).
+  (s <| futs := futs s ++ [mkFut FPending [] false owner None] |>, length (futs s)).
 
 Definition cb_callback (f : nat) (c : cb) : callback :=
   match c with CbWakeup t => HWakeup t f | CbLog n => HLog n end.
@@ -497,20 +510,24 @@ Fixpoint propagate_task (fuel : nat) (s : st) (t : nat) : st :=
 Definition propagate_priority (s : st) (t : nat) : st := propagate_task (efuel s) s t.
 
 (* --------------------------------------------------- library coroutines *)
-Inductive yielded := YNone | YFut (f : nat).
 Inductive lres := LDone (r : reply) | LSusp (y : yielded) (frs : list frame).
 
 (* `await fut` : Future.__await__ *)
-Definition fut_result (s : st) (f : nat) : reply :=
+(* Future.result(): a cancelled future raises its stored _cancelled_exc once *)
+Definition fut_result (s : st) (f : nat) : st * reply :=
   match fstate_ (getf s f) with
-  | FResult v => RVal v
-  | FExc e => RExc e
-  | FCancelled => RExc ECancelled
-  | FPending => RExc EInvalidState
+  | FResult v => (s, RVal v)
+  | FExc e => (s, RExc e)
+  | FCancelled =>
+      match fcexc (getf s f) with
+      | Some e => (setf s f (getf s f <| fcexc := None |>), RExc e)
+      | None => (s, RExc ECancelled)
+      end
+  | FPending => (s, RExc EInvalidState)
   end.
 
 Definition await_fut (s : st) (f : nat) (outer : list frame) : st * lres :=
-  if fdone s f then (s, LDone (fut_result s f))     (* caller continues with [outer] itself *)
+  if fdone s f then (let '(s', r) := fut_result s f in (s', LDone r))
   else (setf s f (getf s f <| fblock := true |>), LSusp (YFut f) (InFut f :: outer)).
 
 (* PriorityLock.acquire up to its `await fut` *)
@@ -885,6 +902,8 @@ Definition lib_call (t : nat) (op : libop) (s : st) : st * lres :=
       else (s, LDone (RExc EValue))
   | OQuery => (queue_iterated (addlog s (query_code s)), LDone (RVal 0))
   | OCallSoonQuery => (call_soon_ s HQuery, LDone (RVal 0))
+  | OCallSoonCancel t' => (call_soon_ s (HTaskCancel t'), LDone (RVal 0))
+  | OCancelAw f => let '(s', ok) := cancel_awaitable s f in (s', LDone (RVal (if ok then 1 else 0)))
   end.
 
 (* resuming one suspended library frame with the input that reaches it *)
@@ -895,7 +914,7 @@ Definition frame_resume (t : nat) (fr : frame) (inp : reply) (s : st) : st * lre
       (* resumed by send(None): `if not self.done(): raise RuntimeError`; return self.result() *)
       match inp with
       | RExc e => (s, LDone (RExc e))
-      | RVal _ => if fdone s f then (s, LDone (fut_result s f))
+      | RVal _ => if fdone s f then (let '(s', r) := fut_result s f in (s', LDone r))
                   else (s, LDone (RExc (ERuntime rt_await_not_used)))
       end
   | InSleepTimer h => (cancel_handle s h, LDone inp)
@@ -993,6 +1012,28 @@ Fixpoint exec (t : nat) (c : coro) (s : st) {struct c} : st * outcome :=
       | LDone rep => exec t (k rep) s'
       | LSusp y frs => (s', OYield y frs k)
       end
+  | Spawn SEager child k =>
+      (* coro_eager: CoroStart runs the child synchronously, inside the current task's step,
+         up to its first suspension *)
+      let '(s, o) := exec t child s in
+      match o with
+      | ODone r =>
+          (* cs.as_future(): a new, already completed future; no task *)
+          let '(s, f) := new_future s None in
+          let s := fst (fut_finish s f (match r with RVal v => FResult v | RExc e => FExc e end)) in
+          exec t (k (RVal (Z.of_nat f))) s
+      | OYield y frs kc =>
+          (* CoroStart._capture(): the handshake flag of a captured future is cleared *)
+          let s := match y with
+                   | YFut f => setf s f (getf s f <| fblock := false |>)
+                   | YNone => s end in
+          (* create_task(<continuation>) *)
+          let tn := length (tasks s) in
+          let '(s, f) := new_future s (Some tn) in
+          let s := s <| tasks := tasks s ++ [mkTask KC None f (TEager y frs kc) None false [] None] |> in
+          let s := call_soon_ s (HStep tn None) in
+          exec t (k (RVal (Z.of_nat f))) s
+      end
   | Spawn how child k =>
       let '(s, t') := spawn_task s how child in
       match how with
@@ -1025,7 +1066,8 @@ Definition finish_step (t : nat) (s : st) (o : outcome) : st :=
       else fst (fut_finish s (tfut tk) (FResult v))
   | ODone (RExc e) =>
       let s := sett s t (tk <| tcont_ := TFin |>) in
-      if is_cancel e then fst (fut_finish s (tfut tk) FCancelled)
+      if is_cancel e
+      then fst (fut_finish (setf s (tfut tk) (getf s (tfut tk) <| fcexc := Some e |>)) (tfut tk) FCancelled)
       else fst (fut_finish s (tfut tk) (FExc e))
   | OYield YNone frs k =>
       call_soon_ (sett s t (tk <| tcont_ := TSusp frs k |>)) (HStep t None)
@@ -1068,6 +1110,23 @@ Definition step_task (t : nat) (exc : option exn) (s : st) : st :=
         | LDone rep => exec t (k rep) s
         | LSusp y frs' => (s, OYield y frs' k)
         end
+    | TEager y frs k =>
+        match exc with
+        | None =>
+            (* first send(None): __await__ re-arms the flag and re-yields what was captured *)
+            let s := match y with
+                     | YFut f => setf s f (getf s f <| fblock := true |>)
+                     | YNone => s end in
+            (s, OYield y frs k)
+        | Some _ =>
+            (* throw() before the first step (repaired): forwarded to the started coroutine
+               at its suspension point *)
+            let '(s, r) := resume_stack t frs inp s in
+            match r with
+            | LDone rep => exec t (k rep) s
+            | LSusp y' frs' => (s, OYield y' frs' k)
+            end
+        end
     | TRun | TFin => (s, ODone (RExc EInvalidState))
     end in
   let s := finish_step t s o in
@@ -1078,7 +1137,8 @@ Definition wakeup (t f : nat) (s : st) : st :=
   match fstate_ (getf s f) with
   | FResult _ => step_task t None s
   | FExc e => step_task t (Some e) s
-  | FCancelled => step_task t (Some ECancelled) s
+  | FCancelled => let '(s', r) := fut_result s f in
+                  step_task t (match r with RExc e => Some e | RVal _ => None end) s'
   | FPending => step_task t (Some EInvalidState) s
   end.
 
@@ -1096,6 +1156,7 @@ Definition run_callback (c : callback) (s : st) : st :=
   | HSetResult f v => fst (fut_finish s f (FResult v))      (* _set_result_unless_cancelled *)
   | HTrigger b => fst (new_task s KC None (interruptor_body b))
   | HQuery => queue_iterated (addlog s (query_code s))
+  | HTaskCancel t => fst (cancel_task s t)
   end.
 
 (* run exactly one ready handle (cancelled handles are popped and skipped) *)
